@@ -75,6 +75,6 @@ _whole.install(globals(), "C03",
                     "consult; monitors count real objective invocations per deme and per level against the reported numbers; minimize() driven with budgets 1..900 against a counting fun.",
                note="Per-level equality with the objective's real invocation count and scipy's nfev (contract X6) are decided by the monitor on every trace, not by a theorem.",
                technique="Coq invariant over all event streams of the HMS machine + vm_compute trace replay against the real package + wrapper-stack theorems on the regenerated model",
-               quick=240, thorough=6000, nontrivial=nontrivial, extra_checks=[minimize_budget], front_ends=["problem", "driver", "ctor"],
+               quick=240, thorough=6000, nontrivial=nontrivial, extra_checks=[minimize_budget], front_ends=["problem", "driver", "ctor", "minimize"],
                forces=[(3, None), (1, {"gsc": {"kind": "SingularEval", "limit": 200}}), (1, {"wrappers": "shared_counting"}), (1, {"wrappers": "cutoff"}),
                        (1, {"wrappers": "cutoff", "height": 2, "engines": ["SEA", "Local"], "cutoff": 120}), (1, {"wrappers": "cutoff", "height": 2, "engines": ["DE", "CMA"]})])
